@@ -141,4 +141,47 @@ Section SerdeProofs.
     exists tr, ser_validator is_utf8 false (VRange None (Some 7%Z)) = Some tr /\
                pos_bounds (flat tr ++ [KOpt false]) = Some (VRange (Some 7%Z) None, []).
   Proof. eexists. split; reflexivity. Qed.
+  (** a claim schema read positionally: fine when nothing was skipped ... *)
+  Definition simple_validator (v : validator) : Prop :=
+    match v with VLength (Some _) (Some _) | VRange (Some _) (Some _) | VRegex _ => True | _ => False end.
+
+  Lemma pos_validators_rt vs : Forall simple_validator vs -> forall ts r,
+    opt_all (map (ser_validator is_utf8 false) vs) = Some ts ->
+    pos_validators (List.length vs) (flat_map flat ts ++ r)%list = Some (vs, r).
+  Proof.
+    induction 1 as [|v t Hv Ht IH]; intros ts r E; cbn [map opt_all] in E.
+    - injection E as <-. reflexivity.
+    - destruct (ser_validator is_utf8 false v) as [tv|] eqn:Ev; [|discriminate].
+      destruct (opt_all (map (ser_validator is_utf8 false) t)) as [tt|] eqn:Et; [|discriminate]. injection E as <-.
+      cbn [Datatypes.length pos_validators flat_map]. rewrite <- app_assoc.
+      assert (Hone : pos_validator (flat tv ++ (flat_map flat tt ++ r))%list = Some (v, (flat_map flat tt ++ r)%list)).
+      { destruct v as [[a|] [b|]|[a|] [b|]|src|l]; try contradiction; cbn in Ev; injection Ev as <-; reflexivity. }
+      rewrite Hone, (IH tt r eq_refl). reflexivity.
+  Qed.
+
+  Theorem pos_claim_schema_rt c tr r :
+    cs_validators c <> [] -> Forall simple_validator (cs_validators c) -> ctype_of_tag (ctype_tag (cs_type c)) = cs_type c ->
+    ser_claim_schema is_utf8 false c = Some tr -> pos_claim_schema (flat tr ++ r)%list = Some (c, r).
+  Proof.
+    intros Hne Hs Ht. destruct c as [ty lab pf vs]. unfold ser_claim_schema. cbn [cs_type cs_label cs_pf cs_validators ser_ctype] in *.
+    destruct (opt_all (map (ser_validator is_utf8 false) vs)) as [ts|] eqn:Ev; [|discriminate].
+    intros X. injection X as <-.
+    destruct ts as [|t0 tr0]; [destruct vs; [congruence|cbn [map opt_all] in Ev; destruct (ser_validator is_utf8 false v); [destruct (opt_all _); discriminate|discriminate]]|].
+    pose proof (pos_validators_rt vs Hs (t0 :: tr0) r Ev) as Hp.
+    assert (Hl : List.length (t0 :: tr0) = List.length vs).
+    { clear -Ev. revert Ev. generalize (t0 :: tr0). induction vs as [|v t IH]; intros ts E; cbn [map opt_all] in E.
+      - injection E as <-. reflexivity.
+      - destruct (ser_validator is_utf8 false v); [|discriminate]. destruct (opt_all _) as [tt|] eqn:Et; [|discriminate].
+        injection E as <-. cbn [Datatypes.length]. rewrite (IH tt eq_refl). reflexivity. }
+    cbn [app flat flat_map snd pos_claim_schema]. rewrite Hl, app_nil_r. cbn [flat_map] in Hp.
+    rewrite Hp, Ht. reflexivity.
+  Qed.
+
+  (** ... and not when the (empty) validator list was skipped: the known finding's own example *)
+  Theorem pos_claim_schema_skipped_refuted :
+    exists c tr, claim_schema_skips c = true /\ ser_claim_schema is_utf8 false c = Some tr /\ pos_claim_schema (flat tr) = None.
+  Proof.
+    exists {| cs_type := THashed; cs_label := [110%Z; 97%Z; 109%Z; 101%Z]; cs_pf := true; cs_validators := [] |}.
+    eexists. split; [reflexivity|]. split; reflexivity.
+  Qed.
 End SerdeProofs.
